@@ -291,10 +291,13 @@ P["C04"] = {
 NC07 = len([f for f in os.listdir(os.path.join(V, "templates")) if f.startswith("c07_")])
 P["C07"] = {
     "design_ref": "DESIGN.md §8 C07 (b)", "assumptions": TIERB_ASSUME + ["each rule is observed through its candidate flag and through ALL facts after running its action list, on copies of the same symbolic facts"],
-    "bounds": "33 near-identical sibling pairs (one constant digit beyond the 6th decimal / sign / exponent / int-vs-float / one character / case / quotes and brackets forging another snapshot; one operator; one negation (paren, atom, call); one selector; one field; argument order / count / value; operand order incl. string +; grouping; assignment form; method vs field), each built natively ALONE and TOGETHER in both build orders; facts symbolic",
-    "outside": "pairs outside the generated family; more than two rules sharing a knowledge base; the Tier K snapshot-injectivity queries over SMT strings of DESIGN §8 C07 (a) are not built",
+    "bounds": "%d near-identical sibling pairs (" % NC07 + "one constant digit beyond the 6th decimal / sign / exponent / int-vs-float / one character / case / quotes and brackets forging another snapshot; one operator; one negation (paren, atom, call); one selector; one field; argument order / count / value; operand order incl. string +; grouping; assignment form; method vs field), each built natively ALONE and TOGETHER in both build orders, as one resource and as two separately loaded resources; facts symbolic; Tier K: snapshot injectivity of string constants up to 1 byte",
+    "outside": "pairs outside the generated family; more than two rules sharing a knowledge base; snapshot injectivity for string constants longer than 1 byte and for number constants (strconv.FormatFloat / %d on symbolic values are out of reach)",
     "runs": [{"name": "c07-sibling-pairs", "pkgdir": "zztier", "harness": TIERC_H, "entry": "VerifC07All", "tiers": QT, "templates": ["c07_%d.recipe.json" % i for i in range(NC07)],
-              "require_reach": ["c07:pair"], "bounds": "all 33 sibling pairs"}]}
+              "require_reach": ["c07:pair"], "bounds": "all %d sibling pairs" % NC07},
+             {"name": "c07-string-constant-snapshots", "pkgdir": "ast", "harness": [["ast", "harness/ast"]], "entry": "VerifC07StringConstants", "args": [1, 0], "tiers": QT,
+              "init": ["strconv", "unicode/utf8"], "require_reach": ["c07:string-constants"], "quick": {"max_values": 300}, "thorough": {"max_values": 300},
+              "bounds": "Tier K: Constant.GetSnapshot (strconv.Quote from SSA) on two string constants of length <= 1 with fully symbolic bytes: different strings never share a snapshot, no bare quote in the payload, no collision with number / bool constants"}]}
 
 
 P["C18"] = {
